@@ -92,10 +92,15 @@ KERNELS = {
              'every read step succeeded, the entry is not older than the sources (real time.Time.After on symbolic instants), the payload is returned unchanged and is not decoded before the staleness test; Store writes the final path only by '
              'renaming a completely written temporary file and leaves nothing under the final name on failure; the package under test and its _test twin are never stored or loaded; two configurations / import paths share a cache file '
              'only if equal field by field (sha256 assumed collision-free).', 'DESIGN.md §4 C20'),
+ 'C18': kern('One package directory holding a file per tag (//go:build TAG and //go:build !TAG for 20 tags: GOOS/GOARCH values, compilers, always-on tags, release tags around the supported version, cgo, foreign systems, user tags), '
+             'per file-name suffix form (16 names), a cgo file and .inc.js candidates is imported through the real simpleCtx.Import (goCtx + applyPreloadTweaks + go/build.Import + incjs.FromDir, all executed in the go/ssa interpreter over a fake file '
+             'system) as a user package and as a standard-library package, for every subset of two user tags: the selected Go files and .inc.js files must be exactly the documented ones. Every tag of two characters over [a-z0-9.] '
+             '(three in the thorough tier) is decided symbolically: satisfied iff it is js or gc. Plain observations on the real toolchain: command-line tags reach imported packages, cgo files are ignored, .inc.js files are included. '
+             'go/build.Default is stubbed (ReleaseTags go1.1..go1.23).', 'DESIGN.md §4 C18'),
 }
 NA_DEFAULT = 'check not built yet in this session (work in progress; see DESIGN.md §8)'
 NA = {}
-KERNEL_ALSO = []       # properties whose check combines the jsx corpus with gosym kernels
+KERNEL_ALSO = ['C05', 'C10', 'C14', 'C16']       # properties whose check combines the jsx corpus with gosym kernels
 
 def main():
     checks = []
